@@ -1,15 +1,16 @@
 PROPERTY = "G01"
 ENTRY = {
         "text": "DnsFront.tla / DnsFrontCore.tla (front stages of the DNS request pipeline, written from the documentation: refuse_any, "
-                "private reverse zones, aaaa_disabled, Firefox canary, healthcheck name, DDR, DHCP host names, DHCP PTR answers, private rDNS, "
+                "private reverse zones, aaaa_disabled, Firefox canary, healthcheck name, DDR, DHCP host names, DHCP PTR answers, private rDNS, DNS64, "
                 "and their precedence over each other and over blocking) is enumerated by TLC over every configuration of a finite universe; "
-                "17 sentences of the statement are invariants on every verdict table; every table is replayed into live, really reconfigured "
+                "19 sentences of the statement are invariants on every verdict table; every table is replayed into live, really reconfigured "
                 "servers (Server.Prepare, lease table, DHCP switch) in seeded orders and each observed outcome (answer class, which upstream "
                 "was asked, addresses / PTR targets / DDR endpoints, query-log write) must be in the admissible set; a seeded random run over a "
-                "larger universe is recorded and validated by TraceDnsFront.tla.",
+                "larger universe is recorded and validated by TraceDnsFront.tla. Disagreements seen only on the live server are reported as "
+                "history-dependent with a shrunk, replayable history.",
         "design_ref": "notes/G01.md (growth item; DESIGN.md section 5)",
         "note": "Trusted: TLC, abs()/zzG01Endpoint()/the RFC 6303 and reverse-name classifiers of zz_verif_g01_test.go. Requests enter through "
                 "Server.ServeHTTP (part over a real UDP socket); upstreams, lease table and query log are recording doubles. Blocking mode default, "
-                "cache and DNS64 off. Not asserted: TTLs, SVCB priority values, logging of locally answered requests where the documentation is silent.",
+                "response cache off. Not asserted: TTLs, SVCB priority values, logging of locally answered requests where the documentation is silent.",
         "technique": "TLA+ spec enumerated by TLC; exhaustive verdict-table replay into real code + TLC trace validation",
     }
